@@ -39,7 +39,11 @@ type preset struct {
 }
 
 func (m *Model) GetPositions(opts ...resource.ReadOption) (*traits.OpenClosePositions, error) {
-	allPositions := m.positions.List(opts...) // already sorted by ID aka Direction ordinal
+	// The read mask names fields of OpenClosePositions, not of the stored OpenClosePosition items:
+	// read the items unmasked and apply the mask to the composed message.
+	readRequest := resource.ComputeReadConfig(opts...)
+	itemOpts := append(append([]resource.ReadOption{}, opts...), resource.WithReadMask(nil))
+	allPositions := m.positions.List(itemOpts...) // already sorted by ID aka Direction ordinal
 	dst := &traits.OpenClosePositions{
 		States: make([]*traits.OpenClosePosition, len(allPositions)),
 	}
@@ -52,7 +56,7 @@ func (m *Model) GetPositions(opts ...resource.ReadOption) (*traits.OpenClosePosi
 		dst.Preset = preset
 	}
 
-	return dst, nil
+	return readRequest.FilterClone(dst).(*traits.OpenClosePositions), nil
 }
 
 func (m *Model) GetPosition(dir traits.OpenClosePosition_Direction, opts ...resource.ReadOption) (*traits.OpenClosePosition, error) {
